@@ -1,5 +1,399 @@
 package main
 
-func driveE2E(u *unitCase) obs { return obs{Fatal: "e2e not implemented"} }
+// End to end: the real client (HTTP/1.1 over a raw TCP origin with scripted segmentation and three
+// framings; HTTP/2 and HTTP/3 over net/http / quic-go origins flushing segment by segment) reads the
+// body through Transport.RoundTrip.  A recording wrapper installed UNDERNEATH the charset decoder
+// (verif hook VerifWithBodyWrap, the transport's own wrapResponseBody mechanism) captures the network
+// reads as they really happened; those are what the Coq model is fed with.
 
-func (w *world) endToEnd() {}
+import (
+	"bufio"
+	"context"
+	"crypto/tls"
+	"fmt"
+	"io"
+	"net"
+	"net/http"
+	"net/http/httptest"
+	"strconv"
+	"strings"
+	"sync"
+	"time"
+
+	req "github.com/imroc/req/v3"
+	"github.com/imroc/req/v3/internal/testcert"
+	qh3 "github.com/quic-go/quic-go/http3"
+
+	"github.com/imroc/req/v3/verifharness/hk"
+)
+
+type e2eScript struct {
+	ct      string
+	respAE  string
+	segs    [][]byte
+	framing string // cl | chunked | close   (raw h1 origin)
+	gap     time.Duration
+}
+
+type e2eOrigins struct {
+	mu      sync.Mutex
+	scripts map[int]*e2eScript
+	next    int
+	raw     net.Listener
+	h2      *httptest.Server
+	h3      *qh3.Server
+	h3addr  string
+}
+
+var theOrigins *e2eOrigins
+var e2eClients = map[string]*req.Client{}
+
+func startE2E() (*e2eOrigins, error) {
+	o := &e2eOrigins{scripts: map[int]*e2eScript{}}
+	l, err := net.Listen("tcp", "127.0.0.1:0")
+	if err != nil {
+		return nil, err
+	}
+	o.raw = l
+	go func() {
+		for {
+			c, err := l.Accept()
+			if err != nil {
+				return
+			}
+			go o.serveRaw(c)
+		}
+	}()
+	hf := http.HandlerFunc(o.handler)
+	o.h2 = httptest.NewUnstartedServer(hf)
+	o.h2.EnableHTTP2 = true
+	o.h2.StartTLS()
+	cert, err := tls.X509KeyPair(testcert.LocalhostCert, testcert.LocalhostKey)
+	if err != nil {
+		return nil, err
+	}
+	pc, err := net.ListenPacket("udp", "127.0.0.1:0")
+	if err != nil {
+		return nil, err
+	}
+	o.h3 = &qh3.Server{TLSConfig: qh3.ConfigureTLSConfig(&tls.Config{Certificates: []tls.Certificate{cert}}), Handler: hf}
+	go o.h3.Serve(pc)
+	o.h3addr = pc.LocalAddr().String()
+	return o, nil
+}
+
+func (o *e2eOrigins) close() {
+	o.raw.Close()
+	o.h2.Close()
+	o.h3.Close()
+}
+
+func (o *e2eOrigins) add(s *e2eScript) int {
+	o.mu.Lock()
+	defer o.mu.Unlock()
+	o.next++
+	o.scripts[o.next] = s
+	return o.next
+}
+
+func (o *e2eOrigins) get(path string) *e2eScript {
+	i := strings.LastIndex(path, "/")
+	id, _ := strconv.Atoi(path[i+1:])
+	o.mu.Lock()
+	defer o.mu.Unlock()
+	return o.scripts[id]
+}
+
+// net/http handler (h2, h3): one Write + Flush per segment
+func (o *e2eOrigins) handler(w http.ResponseWriter, r *http.Request) {
+	s := o.get(r.URL.Path)
+	if s == nil {
+		w.WriteHeader(404)
+		return
+	}
+	if s.ct != "" {
+		w.Header().Set("Content-Type", s.ct)
+	} else {
+		w.Header()["Content-Type"] = nil
+	}
+	if s.respAE != "" {
+		w.Header().Set("Accept-Encoding", s.respAE)
+	}
+	w.WriteHeader(200)
+	f, _ := w.(http.Flusher)
+	for _, seg := range s.segs {
+		w.Write(seg)
+		if f != nil {
+			f.Flush()
+		}
+		time.Sleep(s.gap)
+	}
+}
+
+// raw HTTP/1.1 origin: scripted TCP segmentation
+func (o *e2eOrigins) serveRaw(c net.Conn) {
+	defer c.Close()
+	c.SetDeadline(time.Now().Add(30 * time.Second))
+	br := bufio.NewReader(c)
+	line, err := br.ReadString('\n')
+	if err != nil {
+		return
+	}
+	for {
+		l, err := br.ReadString('\n')
+		if err != nil {
+			return
+		}
+		if l == "\r\n" || l == "\n" {
+			break
+		}
+	}
+	parts := strings.Fields(line)
+	if len(parts) < 2 {
+		return
+	}
+	s := o.get(parts[1])
+	if s == nil {
+		io.WriteString(c, "HTTP/1.1 404 Not Found\r\nContent-Length: 0\r\nConnection: close\r\n\r\n")
+		return
+	}
+	total := 0
+	for _, seg := range s.segs {
+		total += len(seg)
+	}
+	head := "HTTP/1.1 200 OK\r\n"
+	if s.ct != "" {
+		head += "Content-Type: " + s.ct + "\r\n"
+	}
+	if s.respAE != "" {
+		head += "Accept-Encoding: " + s.respAE + "\r\n"
+	}
+	switch s.framing {
+	case "cl":
+		head += fmt.Sprintf("Content-Length: %d\r\n", total)
+	case "chunked":
+		head += "Transfer-Encoding: chunked\r\n"
+	}
+	head += "Connection: close\r\n\r\n"
+	if _, err := io.WriteString(c, head); err != nil {
+		return
+	}
+	time.Sleep(s.gap)
+	for _, seg := range s.segs {
+		var w []byte
+		if s.framing == "chunked" {
+			if len(seg) == 0 {
+				continue // a zero-length chunk would end the body
+			}
+			w = append([]byte(fmt.Sprintf("%x\r\n", len(seg))), seg...)
+			w = append(w, '\r', '\n')
+		} else {
+			w = seg
+		}
+		if len(w) > 0 {
+			if _, err := c.Write(w); err != nil {
+				return
+			}
+		}
+		time.Sleep(s.gap)
+	}
+	if s.framing == "chunked" {
+		io.WriteString(c, "0\r\n\r\n")
+	}
+}
+
+// ---------- client side ----------
+
+type netRead struct {
+	b   []byte
+	err string
+}
+
+type recorder struct {
+	io.ReadCloser
+	mu    sync.Mutex
+	reads []netRead
+}
+
+func (r *recorder) Read(p []byte) (int, error) {
+	n, err := r.ReadCloser.Read(p)
+	r.mu.Lock()
+	r.reads = append(r.reads, netRead{append([]byte(nil), p[:n]...), errClass(err)})
+	r.mu.Unlock()
+	return n, err
+}
+
+func e2eClient(stack string, set settings) *req.Client {
+	k := stack[:2] + "|" + set.name()
+	if c, ok := e2eClients[k]; ok {
+		return c
+	}
+	c := req.C().EnableInsecureSkipVerify().SetTimeout(30 * time.Second)
+	switch stack[:2] {
+	case "h1":
+		c.EnableForceHTTP1()
+	case "h2":
+		c.EnableForceHTTP2()
+	case "h3":
+		c.EnableForceHTTP3()
+	}
+	if set.Disable {
+		c.DisableAutoDecode()
+	}
+	switch set.Sel {
+	case "list":
+		c.SetAutoDecodeContentType(set.List...)
+	case "all":
+		c.SetAutoDecodeAllContentType()
+	case "fn":
+		ans := set.FnAns
+		c.SetAutoDecodeContentTypeFunc(func(string) bool { return ans })
+	}
+	e2eClients[k] = c
+	return c
+}
+
+func (o *e2eOrigins) url(stack string, id int) string {
+	switch stack[:2] {
+	case "h1":
+		return fmt.Sprintf("http://%s/d/%d", o.raw.Addr().String(), id)
+	case "h2":
+		return fmt.Sprintf("%s/d/%d", o.h2.URL, id)
+	}
+	return fmt.Sprintf("https://%s/d/%d", o.h3addr, id)
+}
+
+// driveE2E: u.Chunks are the segments the origin writes; on return o.NetSeen are the reads the decoder saw.
+func driveE2E(u *unitCase) (o obs) {
+	if theOrigins == nil {
+		return obs{Fatal: "origins not started"}
+	}
+	framing := "cl"
+	if i := strings.Index(u.Stack, "-"); i > 0 {
+		framing = u.Stack[i+1:]
+	}
+	id := theOrigins.add(&e2eScript{ct: u.Doc.CT, respAE: u.Set.RespAE, segs: u.Chunks, framing: framing, gap: time.Duration(u.GapMS) * time.Millisecond})
+	done := make(chan obs, 1)
+	go func() {
+		var o obs
+		defer func() {
+			if e := recover(); e != nil {
+				o.Fatal = fmt.Sprintf("panic: %v", e)
+			}
+			done <- o
+		}()
+		var rec *recorder
+		ctx := req.VerifWithBodyWrap(context.Background(), func(rc io.ReadCloser) io.ReadCloser {
+			rec = &recorder{ReadCloser: rc}
+			return rec
+		})
+		cl := e2eClient(u.Stack, u.Set)
+		url := theOrigins.url(u.Stack, id)
+		if u.HighLevel {
+			// the public API: Client.R().Get + Response.Bytes() (io.ReadAll on the decoded body)
+			resp, err := cl.R().SetContext(ctx).Get(url)
+			if err != nil {
+				o.Fatal = "request failed: " + err.Error()
+				return
+			}
+			o.Kind = "highlevel"
+			o.Out = resp.Bytes()
+			o.EndErr = "EOF"
+		} else {
+			hr, _ := http.NewRequestWithContext(ctx, "GET", url, nil)
+			res, err := cl.GetTransport().RoundTrip(hr)
+			if err != nil {
+				o.Fatal = "round trip failed: " + err.Error()
+				return
+			}
+			if res.Body == nil {
+				o.Fatal = "nil Body"
+				return
+			}
+			o.Kind, _, _, _, _ = req.VerifAutoDecodeState(res.Body)
+			readLoop(res.Body, u.Pattern, u.BufMode, 3*len(u.Doc.Body)+2*len(u.Chunks)+200, &o)
+			res.Body.Close()
+		}
+		if rec == nil {
+			o.Fatal = "body wrapper was not installed"
+			return
+		}
+		rec.mu.Lock()
+		defer rec.mu.Unlock()
+		sawEOF := false
+		for _, r := range rec.reads {
+			if r.err == "other" {
+				o.Fatal = "network read error underneath the decoder"
+				return
+			}
+			o.NetSeen = append(o.NetSeen, r.b)
+			if r.err == "EOF" {
+				sawEOF = true
+				o.NetEOFLast = len(r.b) > 0
+				if len(r.b) == 0 {
+					o.NetSeen = o.NetSeen[:len(o.NetSeen)-1]
+				}
+				break
+			}
+		}
+		if !sawEOF && o.Fatal == "" {
+			o.Fatal = "decoder finished without reading the network to EOF"
+		}
+	}()
+	select {
+	case o = <-done:
+	case <-time.After(60 * time.Second):
+		o.Fatal = "hang (60 s watchdog)"
+	}
+	o.NCalls, o.OutLen = len(o.Calls), len(o.Out)
+	return o
+}
+
+var e2eStacks = []string{"h1-cl", "h1-chunked", "h1-close", "h2", "h3"}
+
+func (w *world) endToEnd() {
+	o, err := startE2E()
+	if err != nil {
+		w.r.Notes = append(w.r.Notes, "e2e origins could not be started: "+err.Error())
+		w.r.Fail(hk.Failure{Sig: "harness:e2e-origins", What: "could not start the local origins: " + err.Error()})
+		return
+	}
+	theOrigins = o
+	defer o.close()
+	rnd := w.rnd
+	n := w.r.Scale(170, 1500)
+	sets := []settings{defaultSet, defaultSet, defaultSet, {Sel: "all"}, {Sel: "default", Disable: true}, {Sel: "list", List: []string{"html"}}, {Sel: "default", RespAE: "gzip"}}
+	for i := 0; i < n; i++ {
+		cs := &charsetTable[i%len(charsetTable)]
+		s := hk.Pick(rnd, []site{siteHeader, siteMeta, siteHTTPEquiv, siteNone, siteConflict, siteLateMeta, siteHdrUTF8})
+		if cs.UTF16 {
+			s = hk.Pick(rnd, []site{siteHeader, siteBOM})
+		}
+		if cs.UTF8 {
+			s = hk.Pick(rnd, []site{siteBOM, siteNone, siteMeta})
+		}
+		d, ok := makeDoc(rnd, s, cs, hk.Pick(rnd, []int{25, 60, 120, 300, 511, 512, 513, 1024, 1500, 4097}))
+		if !ok {
+			continue
+		}
+		if i%9 == 0 {
+			d.CT = hk.Pick(rnd, []string{"image/png", "application/octet-stream"})
+			if d.HdrCS != "" {
+				d.CT += "; charset=" + d.HdrCS
+			}
+		}
+		io := interestingOffsets(d)
+		var segs [][]byte
+		switch rnd.Intn(4) {
+		case 0:
+			segs = [][]byte{d.Body}
+		case 1, 2:
+			segs = splitAt(d.Body, []int{hk.Pick(rnd, io)})
+		default:
+			segs = splitAt(d.Body, []int{hk.Pick(rnd, io), hk.Pick(rnd, io) + rnd.Intn(9)})
+		}
+		u := &unitCase{Kind: "e2e", Doc: d, Set: sets[i%len(sets)], Chunks: segs, Pattern: hk.Pick(rnd, sizePatterns[3:]),
+			BufMode: hk.Pick(rnd, []string{"zero", "stale-meta", "reuse"}), FailAt: -1, Stack: e2eStacks[i%len(e2eStacks)], GapMS: 6, HighLevel: i%6 == 5}
+		w.eval(u, len(d.Body) <= 1600)
+	}
+}
